@@ -34,6 +34,14 @@ def shapes():
         add(w + 'SELECT a, (SELECT COUNT(*) FROM c) AS n FROM t', 'ref-in-scalar', 'SELECT a, (SELECT COUNT(*) FROM %s c) AS n FROM t' % d)
         add(w + 'SELECT a, b FROM c WHERE a IN (SELECT a FROM c)', 'ref-from-and-subquery', 'SELECT a, b FROM %s c WHERE a IN (SELECT a FROM %s c)' % (d, d))
         add(w + 'SELECT a, b FROM c UNION ALL SELECT a, b FROM c', 'ref-both-union-branches', 'SELECT a, b FROM %s c UNION ALL SELECT a, b FROM %s c' % (d, d))
+        # references filtered DIFFERENTLY (aliased or not): each reference sees all the CTE's rows, whatever the others filter on
+        add(w + 'SELECT x.a, x.b, y.a, y.b FROM c x JOIN c y ON x.b = y.b WHERE x.a >= 2 AND y.a < 2', 'self-join-different-filters',
+            'SELECT x.a, x.b, y.a, y.b FROM %s x JOIN %s y ON x.b = y.b WHERE x.a >= 2 AND y.a < 2' % (d, d))
+        add(w + 'SELECT x.a, x.b, y.a FROM c x, c y WHERE x.a = 1 AND y.a IS NULL', 'cross-different-filters', 'SELECT x.a, x.b, y.a FROM %s x, %s y WHERE x.a = 1 AND y.a IS NULL' % (d, d))
+        add(w + 'SELECT x.a, (SELECT COUNT(*) FROM c) AS n FROM c x WHERE x.a >= 2', 'aliased-filtered-plus-scalar', 'SELECT x.a, (SELECT COUNT(*) FROM %s c) AS n FROM %s x WHERE x.a >= 2' % (d, d))
+        add(w + 'SELECT x.a, x.b FROM c x WHERE x.a = 1 AND x.b IN (SELECT b FROM c)', 'aliased-filtered-plus-in', 'SELECT x.a, x.b FROM %s x WHERE x.a = 1 AND x.b IN (SELECT b FROM %s c)' % (d, d))
+        add(w + 'SELECT x.a, x.b FROM c x WHERE x.a = 1 UNION ALL SELECT y.a, y.b FROM c y WHERE y.a = 2 UNION ALL SELECT a, b FROM c', 'three-refs-three-filters',
+            'SELECT x.a, x.b FROM %s x WHERE x.a = 1 UNION ALL SELECT y.a, y.b FROM %s y WHERE y.a = 2 UNION ALL SELECT a, b FROM %s c' % (d, d, d))
     # two / three CTEs, one referring to an earlier one
     add('WITH c AS (%s), d AS (%s) SELECT c.a, d.b FROM c, d' % (B['lo'], B['hi']), 'two-ctes-cross')
     add('WITH c AS (%s), d AS (SELECT a, b FROM c WHERE b = 1) SELECT a, b FROM d' % B['all'], 'cte-refers-earlier')
